@@ -11,15 +11,35 @@
 #![recursion_limit = "2048"]
 
 pub mod common;
-
 #[cfg(kani)]
+pub mod kern;
+#[cfg(kani)]
+pub mod pipe;
+
+#[cfg(any(kani, feature = "selftest"))]
 pub mod x86_model;
+#[macro_use]
+pub mod x86_glue;
 
 #[cfg(all(kani, feature = "prop_c04"))]
 pub mod c04;
 
+#[cfg(all(kani, feature = "prop_c02"))]
+pub mod gen_c02;
+#[cfg(all(kani, feature = "prop_c01"))]
+pub mod gen_c01;
+#[cfg(all(kani, feature = "prop_c05"))]
+pub mod gen_c05;
+#[cfg(all(kani, feature = "prop_c10"))]
+pub mod gen_c10;
+#[cfg(all(kani, feature = "prop_c18"))]
+pub mod gen_c18;
+
 #[cfg(all(kani, feature = "prop_c17"))]
 pub mod c17;
+
+#[cfg(all(kani, feature = "probe"))]
+pub mod probe;
 
 #[cfg(kani)]
 mod playback;
